@@ -152,7 +152,7 @@ def summary(fn, norm, calls_pred=None, ctx=None):
     for at in atoms(fn):
         c = at.cond()
         if c is None:
-            base = ("!" if at.neg else "") + norm.s(at.term)
+            base = norm.s(at.term)
         else:
             op, a, b = c
             a_s, b_s = norm.s(a), norm.s(b)
